@@ -246,7 +246,7 @@ func cmdCheck(args []string) int {
 					}
 					break
 				}
-				if v.Conc {
+				if v.Conc && !strings.HasPrefix(l, "race:") {
 					// schedule-dependent: the native scheduler could not be driven
 					// into the recorded interleaving within the stress budget; the
 					// counterexample stands on the interpreter's deterministic
@@ -370,7 +370,12 @@ func nativeReplay(env *Env, spec *Spec, h HarnessCfg, replayPath string, v Viola
 	if v.Conc {
 		stress = 20000
 	}
-	out, err := runNative(env.ovFiles, spec, h.Pkg, replayPath, 60, stress)
+	race := strings.HasPrefix(v.Label, "race:")
+	if race {
+		// confirmed by the Go race detector on a native stress run
+		stress = 300
+	}
+	out, err := runNative(env.ovFiles, spec, h.Pkg, replayPath, 120, stress, race)
 	_ = err
 	return judgeReplay(out, v.Label, v.Site), out
 }
@@ -388,7 +393,7 @@ func interpReplay(env *Env, h HarnessCfg, params map[string]int, v Violation) bo
 	return res.ViolCount[v.Label] > 0
 }
 
-func runNative(ovFiles map[string]string, spec *Spec, pkg string, replayPath string, timeoutS int, stress int) (string, error) {
+func runNative(ovFiles map[string]string, spec *Spec, pkg string, replayPath string, timeoutS int, stress int, race bool) (string, error) {
 	work, err := os.MkdirTemp(filepath.Join(verifDir(), ".work"), "replay")
 	if err != nil {
 		os.MkdirAll(filepath.Join(verifDir(), ".work"), 0o755)
@@ -424,7 +429,11 @@ func runNative(ovFiles map[string]string, spec *Spec, pkg string, replayPath str
 	os.WriteFile(ovPath, ovData, 0o644)
 	bin := filepath.Join(work, "replay.test")
 	env := append(os.Environ(), "GOFLAGS=-mod=mod", "GOPROXY=off", "GOSUMDB=off", "GOTOOLCHAIN=local", "ZZ_REPLAY="+replayPath, fmt.Sprintf("ZZ_STRESS=%d", stress))
-	build := exec.Command("timeout", "300", "go", "test", "-c", "-o", bin, "-vet=off", "-tags", "verif appengine", "-overlay", ovPath, "./"+pkg)
+	buildArgs := []string{"300", "go", "test", "-c", "-o", bin, "-vet=off", "-tags", "verif appengine", "-overlay", ovPath}
+	if race {
+		buildArgs = append(buildArgs, "-race")
+	}
+	build := exec.Command("timeout", append(buildArgs, "./"+pkg)...)
 	build.Dir = repoDir
 	build.Env = env
 	if out, err := build.CombinedOutput(); err != nil {
@@ -454,6 +463,8 @@ func packageNameOf(ovFiles map[string]string, pkg string) string {
 
 func judgeReplay(out, label, site string) bool {
 	switch {
+	case strings.HasPrefix(label, "race:"):
+		return strings.Contains(out, "WARNING: DATA RACE")
 	case strings.HasPrefix(label, "panic:"):
 		if !(strings.Contains(out, "REPLAY-PANIC") || strings.Contains(out, "\npanic:")) {
 			return false
@@ -505,7 +516,11 @@ func cmdReplay(args []string) int {
 	if len(ro.Sched) > 0 {
 		stress = 20000
 	}
-	out, _ := runNative(ov, spec, ro.Pkg, *file, 60, stress)
+	race := strings.HasPrefix(ro.Label, "race:")
+	if race {
+		stress = 300
+	}
+	out, _ := runNative(ov, spec, ro.Pkg, *file, 120, stress, race)
 	fmt.Println(tail(out, 60))
 	if judgeReplay(out, ro.Label, ro.Site) {
 		fmt.Printf("VIOLATION property=%s replay=%s\n", spec.Property, *file)
